@@ -86,7 +86,7 @@ fn main() {
     let is_test = args.iter().any(|a| a == "--test");
     let wanted = matches!(
         crate_name.as_str(),
-        "serde_avro_fast" | "serde_avro_derive" | "serde_avro_derive_macros"
+        "serde_avro_fast" | "serde_avro_derive" | "serde_avro_derive_macros" | "savf_corpus"
     ) && is_lib
         && !is_test;
     let mut cb = Cb { out: if wanted { out } else { None } };
@@ -299,6 +299,27 @@ fn impl_j<'tcx>(tcx: TyCtxt<'tcx>, did: DefId) -> J {
         .map(|d| J::s(tcx.def_path_str(*d)))
         .collect();
     o.set("items", J::Arr(its));
+    // associated types of the impl (name -> type as written, identity-instantiated) and generic parameter kinds
+    let mut ats = J::obj();
+    for d in tcx.associated_item_def_ids(did).iter() {
+        if matches!(tcx.def_kind(*d), DefKind::AssocTy) {
+            let t = tcx.type_of(*d).instantiate_identity().skip_norm_wip();
+            ats.set(&tcx.item_name(*d).to_string(), J::s(t.to_string()));
+        }
+    }
+    o.set("assoc_tys", ats);
+    let gk: Vec<J> = g
+        .own_params
+        .iter()
+        .map(|p| {
+            J::s(match p.kind {
+                ty::GenericParamDefKind::Lifetime => "lifetime",
+                ty::GenericParamDefKind::Type { .. } => "type",
+                ty::GenericParamDefKind::Const { .. } => "const",
+            })
+        })
+        .collect();
+    o.set("generic_kinds", J::Arr(gk));
     o
 }
 
